@@ -33,6 +33,9 @@ pub enum Arg {
     Col(usize),
     Mul,
     Add,
+    /// a literal argument: `COUNT(1)` counts rows, `COUNT(NULL)` is always 0
+    LitOne,
+    LitNull,
 }
 
 #[derive(Clone, Debug, PartialEq)]
@@ -99,6 +102,8 @@ impl Q {
             Arg::Col(i) => self.col(*i),
             Arg::Mul => format!("{} * {}", self.col(0), self.col(1)),
             Arg::Add => format!("{} + {}", self.col(0), self.col(1)),
+            Arg::LitOne => "1".into(),
+            Arg::LitNull => "NULL".into(),
         }
     }
     fn atom_sql(&self, a: &Atom) -> String {
@@ -185,6 +190,8 @@ impl Q {
             Arg::Col(i) => row[*i].clone(),
             Arg::Mul => arith(&row[0], '*', &row[1]),
             Arg::Add => arith(&row[0], '+', &row[1]),
+            Arg::LitOne => V::I(1),
+            Arg::LitNull => V::Null,
         }
     }
     /// Rows the WHERE clause selects (TRUE only).
@@ -228,6 +235,7 @@ impl Q {
             Arg::Star => "*",
             Arg::Col(_) => "col",
             Arg::Mul | Arg::Add => "expr",
+            Arg::LitOne | Arg::LitNull => "literal",
         };
         format!("{}({})", g.f.name(), a)
     }
@@ -377,7 +385,7 @@ const FIVE: [Func; 5] = [Func::Count, Func::Sum, Func::Avg, Func::Min, Func::Max
 
 /// Aggregates that are type-correct for the column kinds.
 fn singles(ts: &TypeSet) -> Vec<Agg> {
-    let mut out = vec![ag(Func::CountStar, Arg::Star)];
+    let mut out = vec![ag(Func::CountStar, Arg::Star), ag(Func::Count, Arg::LitOne), ag(Func::Count, Arg::LitNull)];
     for c in 0..2 {
         for f in FIVE {
             if ts[c].is_num() || matches!(f, Func::Count | Func::Min | Func::Max) {
@@ -662,6 +670,9 @@ pub enum Rows {
     MultisetsBothOrders(usize),
     /// all row multisets of size exactly k, inserted ascending
     Multisets(usize),
+    /// tables of 1023 / 1024 / 1025 / 2048 rows around the 1024-value batch size of the vectorised
+    /// aggregates: column a never NULL, column b NULL from row 1024 on (so b has exactly 1024 values)
+    BatchBoundary,
 }
 
 fn databases(ts: &TypeSet, d: Dom, r: Rows) -> Vec<Vec<Vec<V>>> {
@@ -673,6 +684,13 @@ fn databases(ts: &TypeSet, d: Dom, r: Rows) -> Vec<Vec<Vec<V>>> {
                 for s in common::sequences(kinds.len(), len) {
                     out.push(s.iter().map(|&i| kinds[i].clone()).collect());
                 }
+            }
+        }
+        Rows::BatchBoundary => {
+            let va: Vec<V> = ts[0].domain(d).into_iter().filter(|v| !v.is_null()).collect();
+            let vb: Vec<V> = ts[1].domain(d).into_iter().filter(|v| !v.is_null()).collect();
+            for n in [1023usize, 1024, 1025, 2048] {
+                out.push((0..n).map(|i| vec![va[i % va.len()].clone(), if i < 1024 { vb[(i / 2) % vb.len()].clone() } else { V::Null }]).collect());
             }
         }
         Rows::MultisetsBothOrders(k) | Rows::Multisets(k) => {
@@ -715,6 +733,7 @@ fn plan(thorough: bool) -> Vec<Block> {
         vec![
             Block { typesets: vec![II, ID], level: Level::Core, dom: Dom::Three, rows: Rows::Sequences(0, 2) },
             Block { typesets: vec![DD, SI, IS, SB, RN], level: Level::Small, dom: Dom::Three, rows: Rows::Sequences(0, 2) },
+            Block { typesets: vec![II, DD], level: Level::Small, dom: Dom::Three, rows: Rows::BatchBoundary },
         ]
     } else {
         vec![
@@ -723,6 +742,7 @@ fn plan(thorough: bool) -> Vec<Block> {
             Block { typesets: vec![SB, BS, RN, NR], level: Level::Core, dom: Dom::Four, rows: Rows::Sequences(0, 2) },
             Block { typesets: vec![II, DD, ID, DI], level: Level::Small, dom: Dom::Four, rows: Rows::Multisets(4) },
             Block { typesets: vec![II, DD, ID, DI], level: Level::Small, dom: Dom::Extended, rows: Rows::Sequences(1, 2) },
+            Block { typesets: vec![II, DD, ID, DI], level: Level::Core, dom: Dom::Four, rows: Rows::BatchBoundary },
         ]
     }
 }
@@ -1032,7 +1052,7 @@ pub fn run(tier: &str) -> i32 {
                     }
                     for g in &qu.aggs {
                         match &g.arg {
-                            Arg::Mul | Arg::Add => c.columnar_expression += 1,
+                            Arg::Mul | Arg::Add | Arg::LitOne | Arg::LitNull => c.columnar_expression += 1,
                             Arg::Star | Arg::Col(_) => {
                                 let ci = if let Arg::Col(i) = g.arg { i } else { 0 };
                                 match rows.iter().map(|r| &r[ci]).find(|v| !v.is_null()) {
